@@ -56,7 +56,7 @@ def wrapper_case(rng, tier, algo=None):
     # rhomax where the wrappers have a budget per learner (H >= 1) most of the time
     c["params"] = {"nu": float(10 ** rng.uniform(-1, 1)), "rhomax": float(rng.uniform(0.05, 0.97))}
     c["_cost"] = 1e-3 * n + 0.1
-    return gen.add_midqueries(rng, c, 0.3)
+    return gen.add_midqueries(rng, gen.add_queries(rng, c, 0.5), 0.3)
 
 
 def monitors_for(case, with_tree=True):
